@@ -537,7 +537,7 @@ func Expr(v ssa.Value) string {
 	return exprDepth(v, 0, map[ssa.Value]bool{})
 }
 
-const maxDepth = 12
+const maxDepth = 16
 
 func exprDepth(v ssa.Value, d int, onstack map[ssa.Value]bool) string {
 	if v == nil {
@@ -547,7 +547,7 @@ func exprDepth(v ssa.Value, d int, onstack map[ssa.Value]bool) string {
 		return "…"
 	}
 	if onstack[v] {
-		return "loop:" + v.Name()
+		return "loop"
 	}
 	onstack[v] = true
 	defer delete(onstack, v)
@@ -581,9 +581,7 @@ func exprDepth(v ssa.Value, d int, onstack map[ssa.Value]bool) string {
 		// closure, `x, ok := f()` results that are address-taken): render the stored value, so that
 		// expressions do not depend on whether a variable happens to be spilled.
 		if sv := singleStore(x); sv != nil {
-			if _, isParam := sv.(*ssa.Parameter); isParam || d < 6 {
-				return r(sv)
-			}
+			return r(sv)
 		}
 		// local variable; identify by its source name when available
 		if x.Comment != "" {
@@ -985,4 +983,63 @@ func AddrExpr(v ssa.Value) string {
 		return "local:" + al.Name()
 	}
 	return Expr(v)
+}
+
+// PathGuards enumerates the acyclic paths (each block at most once) from the entry to the
+// instruction and returns, per path, the set of normalised guard strings of the If edges taken.
+// ok=false if more than max paths exist.
+func (f *Fn) PathGuards(target ssa.Instruction, max int) (paths []map[string]bool, ok bool) {
+	tp, has := f.pos[target]
+	if !has || !f.Live(target) {
+		return nil, true
+	}
+	ok = true
+	visited := make([]bool, len(f.succ))
+	var cur []Guard
+	var walk func(b int)
+	walk = func(b int) {
+		if !ok {
+			return
+		}
+		if b == tp[0] {
+			m := map[string]bool{}
+			for _, g := range cur {
+				for _, s := range NormGuard(g) {
+					m[s] = true
+				}
+			}
+			paths = append(paths, m)
+			if len(paths) > max {
+				ok = false
+			}
+			return
+		}
+		visited[b] = true
+		blk := f.F.Blocks[b]
+		iff, isIf := blk.Instrs[len(blk.Instrs)-1].(*ssa.If)
+		for k, s := range f.succ[b] {
+			if visited[s] {
+				continue
+			}
+			if isIf && len(f.succ[b]) == 2 {
+				cur = append(cur, Guard{If: iff, Cond: iff.Cond, Pol: k == 0})
+				walk(s)
+				cur = cur[:len(cur)-1]
+			} else {
+				walk(s)
+			}
+		}
+		visited[b] = false
+	}
+	walk(0)
+	return paths, ok
+}
+
+// PathGuardsHas returns the (possibly empty) list containing g if the instruction is edge-dominated
+// by a guard rendering to g. (Convenience for rules that already hold the string.)
+func (f *Fn) PathGuardsHas(ins ssa.Instruction, g string) []string {
+	if f.HasGuard(ins, Equals(g)) {
+		return []string{g}
+	}
+	return nil
 }
